@@ -56,8 +56,63 @@ def gfTokOk (v : Bytes) : Prop := nameOk v ∧ (10 : UInt8) ∉ v ∧ v.getLast?
 def gfTextOk (v : Bytes) : Prop :=
   (∀ c, v.head? = some c → inDelim blankTab c = false) ∧ (0 : UInt8) ∉ v ∧ (10 : UInt8) ∉ v ∧ v.getLast? ≠ some 13
 
-/-- the annotation covered here: the five `#=GC` consensus lines and the `#=GF` header section
-    (ID, AC, DE, AU, comments, unparsed `#=GF` tags); nothing per sequence, no unparsed `#=GC`, no weights, no cut-offs -/
+/-- a comment that survives: does not begin with white space (the reader skips it), no NUL, no LF, no CR at the end, and
+    `#` + comment is not taken for a `#=GF/#=GS/#=GC/#=GR` line -/
+def comOk (c : Bytes) : Prop :=
+  (∀ x, c.head? = some x → isSpace x = false) ∧ (0 : UInt8) ∉ c ∧ (10 : UInt8) ∉ c ∧ c.getLast? ≠ some 13 ∧
+  memstrpfx (35 :: c) bGF = false ∧ memstrpfx (35 :: c) bGS = false ∧ memstrpfx (35 :: c) bGC = false ∧
+  memstrpfx (35 :: c) bGR = false
+
+/-- an unparsed `#=GF` tag: a token, and none of the tags the reader parses -/
+def gfTagOk (t : Bytes) : Prop :=
+  nameOk t ∧ (10 : UInt8) ∉ t ∧ t ≠ bID ∧ t ≠ bAC ∧ t ≠ bDE ∧ t ≠ bAU ∧ t ≠ bGA ∧ t ≠ bNC ∧ t ≠ bTC
+
+/-- `msa->alloc_ncomment` after `n` calls of `esl_msa_AddComment` -/
+def comAllocN : Nat → Nat
+  | 0 => 0
+  | n + 1 =>
+    let a0 := if comAllocN n == 0 then 16 else comAllocN n
+    if n == a0 then a0 * 2 else a0
+
+/-- `msa->alloc_ngf` after `n` calls of `esl_msa_AddGF` -/
+def gfAllocN : Nat → Nat
+  | 0 => 0
+  | n + 1 => if n == gfAllocN n then (if gfAllocN n == 0 then 16 else gfAllocN n * 2) else gfAllocN n
+
+/-- a binary32 pattern that is neither an infinity nor a NaN -/
+def finiteF32 (b : UInt32) : Prop := (b.toNat / 2 ^ 23) % 256 ≠ 255
+
+/-- what a cut-off pair does to `cutset` -/
+def cutPair (cs : List Bool) (i1 i2 : Nat) (c1 c2 : Option UInt32) : List Bool :=
+  match c1, c2 with
+  | some _, some _ => (cs.set i1 true).set i2 true
+  | some _, none => cs.set i1 true
+  | none, _ => cs
+
+/-- `msa->cutset[]` after the reader has seen the `#=GF GA/NC/TC` lines the writer prints (a second threshold is printed
+    only together with the first) -/
+def cutsetOf (m : Msa) : List Bool :=
+  let cut := fun (k : Nat) => m.cutoff.getD k none
+  cutPair (cutPair (cutPair (List.replicate 6 false) 2 3 (cut 2) (cut 3)) 4 5 (cut 4) (cut 5)) 0 1 (cut 0) (cut 1)
+
+/-- which `cutset` flags come back: a first threshold when it is set, a second one only together with the first -/
+theorem cutsetOf_eq (m : Msa) :
+    cutsetOf m = [(m.cutoff.getD 0 none).isSome, (m.cutoff.getD 0 none).isSome && (m.cutoff.getD 1 none).isSome,
+                  (m.cutoff.getD 2 none).isSome, (m.cutoff.getD 2 none).isSome && (m.cutoff.getD 3 none).isSome,
+                  (m.cutoff.getD 4 none).isSome, (m.cutoff.getD 4 none).isSome && (m.cutoff.getD 5 none).isSome] := by
+  show cutPair (cutPair (cutPair (List.replicate 6 false) 2 3 (m.cutoff.getD 2 none) (m.cutoff.getD 3 none)) 4 5
+    (m.cutoff.getD 4 none) (m.cutoff.getD 5 none)) 0 1 (m.cutoff.getD 0 none) (m.cutoff.getD 1 none) = _
+  generalize m.cutoff.getD 0 none = o0
+  generalize m.cutoff.getD 1 none = o1
+  generalize m.cutoff.getD 2 none = o2
+  generalize m.cutoff.getD 3 none = o3
+  generalize m.cutoff.getD 4 none = o4
+  generalize m.cutoff.getD 5 none = o5
+  cases o0 <;> cases o1 <;> cases o2 <;> cases o3 <;> cases o4 <;> cases o5 <;> rfl
+
+/-- the annotation covered here: the five `#=GC` consensus lines and the whole header section (comment lines, `#=GF ID, AC,
+    DE, AU`, the cut-offs `GA NC TC` with finite values, unparsed `#=GF` tags); nothing per sequence, no unparsed `#=GC`,
+    no weights -/
 structure StoAnn (m : Msa) : Prop where
   hasw : m.hasw = false
   sqacc : m.sqacc = none
@@ -65,7 +120,6 @@ structure StoAnn (m : Msa) : Prop where
   ss : m.ss = none
   sa : m.sa = none
   pp : m.pp = none
-  cutoff : m.cutoff = []
   gs : m.gs = []
   gc : m.gc = []
   gr : m.gr = []
@@ -74,11 +128,12 @@ structure StoAnn (m : Msa) : Prop where
   acc_ok : ∀ v, m.acc = some v → gfTokOk v
   desc_ok : ∀ v, m.desc = some v → gfTextOk v
   au_ok : ∀ v, m.au = some v → gfTextOk v
-  comments : m.comments = []
-  gf : m.gf = []
+  cut_ok : ∀ k v, m.cutoff.getD k none = some v → finiteF32 v
+  com_ok : ∀ c ∈ m.comments, comOk c
+  gf_ok : ∀ t ∈ m.gf, gfTagOk t.1 ∧ gfTextOk t.2
 
 theorem StoPlain.ann {m : Msa} (h : StoPlain m) : StoAnn m :=
-  { hasw := h.hasw, sqacc := h.sqacc, sqdesc := h.sqdesc, ss := h.ss, sa := h.sa, pp := h.pp, cutoff := h.cutoff
+  { hasw := h.hasw, sqacc := h.sqacc, sqdesc := h.sqdesc, ss := h.ss, sa := h.sa, pp := h.pp
     gs := h.gs, gc := h.gc, gr := h.gr
     cons_ok := fun k s hs => by
       have : (consF m).getD k none = none := by
@@ -89,7 +144,9 @@ theorem StoPlain.ann {m : Msa} (h : StoPlain m) : StoAnn m :=
     acc_ok := fun v hv => by rw [h.acc] at hv; cases hv
     desc_ok := fun v hv => by rw [h.desc] at hv; cases hv
     au_ok := fun v hv => by rw [h.au] at hv; cases hv
-    comments := h.comments, gf := h.gf }
+    cut_ok := fun k v hv => by rw [h.cutoff] at hv; simp at hv
+    com_ok := fun c hc => by rw [h.comments] at hc; cases hc
+    gf_ok := fun t ht => by rw [h.gf] at ht; cases ht }
 
 /-- an alignment (names, rows, and the annotation `StoAnn` admits) that Stockholm/Pfam carry and `stockholm_write` +
     `esl_msafile_stockholm_Read` (configuration `cfg`) preserve.  `txt i` is the text the writer prints for row `i`, `enc`
@@ -130,10 +187,16 @@ theorem flatMap_single {α β : Type} (f : α → β) (l : List α) : l.flatMap 
   | nil => rfl
   | cons a l ih => simp [List.flatMap_cons, ih]
 
-/-- the header section: `# STOCKHOLM 1.0`, `#=GF ID/AC/DE/AU`, the blank line -/
+/-- the header section: `# STOCKHOLM 1.0`, the comments (and the blank line behind them), `#=GF ID/AC/DE/AU`, the cut-offs
+    `GA/NC/TC`, the unparsed `#=GF` tags, the blank line -/
 def stoAnnHead (m : Msa) : List Bytes :=
-  [bSto10] ++ (optLine m.name (gfLine (stoLayout m) bID) ++ (optLine m.acc (gfLine (stoLayout m) bAC)
-    ++ (optLine m.desc (gfLine (stoLayout m) bDE) ++ (optLine m.au (gfLine (stoLayout m) bAU) ++ [[]]))))
+  [bSto10] ++ (m.comments.map (fun c => 35 :: c) ++ ((if m.comments.isEmpty then [] else [[]])
+    ++ (optLine m.name (gfLine (stoLayout m) bID) ++ (optLine m.acc (gfLine (stoLayout m) bAC)
+    ++ (optLine m.desc (gfLine (stoLayout m) bDE) ++ (optLine m.au (gfLine (stoLayout m) bAU)
+    ++ (cutLines (stoLayout m) bGA (m.cutoff.getD 2 none) (m.cutoff.getD 3 none)
+    ++ (cutLines (stoLayout m) bNC (m.cutoff.getD 4 none) (m.cutoff.getD 5 none)
+    ++ (cutLines (stoLayout m) bTC (m.cutoff.getD 0 none) (m.cutoff.getD 1 none)
+    ++ (m.gf.map (fun t => gfLine (stoLayout m) t.1 t.2) ++ [[]]))))))))))
 
 theorem stoBody_ann (pfam : Bool) (abc : Option Abc) (m : Msa) (hp : StoAnn m) (hn : m.names.Nodup) :
     stockholmBodyLines pfam abc m
@@ -161,9 +224,12 @@ theorem stoBody_ann (pfam : Bool) (abc : Option Abc) (m : Msa) (hp : StoAnn m) (
   have f3 : str "DE" = bDE := by decide +kernel
   have f4 : str "AU" = bAU := by decide +kernel
   have f5 : str "# STOCKHOLM 1.0" = bSto10 := by decide +kernel
+  have f6 : str "GA" = bGA := by decide +kernel
+  have f7 : str "NC" = bNC := by decide +kernel
+  have f8 : str "TC" = bTC := by decide +kernel
   have hhead : stoHeadLines (stoLayout m) m = stoAnnHead m := by
-    unfold stoHeadLines cutLines stoAnnHead
-    simp only [hu, hp.comments, hp.cutoff, hp.gf, f1, f2, f3, f4, f5]
+    unfold stoHeadLines stoAnnHead
+    simp only [hu, f1, f2, f3, f4, f5, f6, f7, f8]
     cases m.name <;> cases m.acc <;> cases m.desc <;> cases m.au <;> simp [optLine]
   have hgs : stoGSLines (stoLayout m) m = [] := by
     unfold stoGSLines
@@ -252,10 +318,23 @@ theorem stoStep_sqline (cfg : Cfg) (st : StoSt) (nm sp c : Bytes) (hl : st.lead 
 
 /-! ## the reader's state while it reads such a file -/
 
+/-- what the `#=GS` section leaves in the reader's state (constant while the blocks are read) -/
+structure GsSt where
+  hasw : Bool
+  wgt : List Wgt
+  sqacc : OptRows
+  sqdesc : OptRows
+  gsTags : List Bytes
+  gs : List (List (Option Bytes))
+
+/-- no `#=GS` section -/
+def GsSt.none : GsSt := ⟨false, [], .none, .none, [], []⟩
+
 /-- the annotation part of the reader's state -/
 structure Ann where
   lead : Bool
   hasw : Bool
+  wgt : List Wgt
   name : Option Bytes
   desc : Option Bytes
   acc : Option Bytes
@@ -276,7 +355,7 @@ structure Ann where
   gr : List (List (Option Bytes))
 
 def annOf (st : StoSt) : Ann :=
-  { lead := st.lead, hasw := st.hasw, name := st.name, desc := st.desc, acc := st.acc, au := st.au, cons := st.cons,
+  { lead := st.lead, hasw := st.hasw, wgt := st.wgt, name := st.name, desc := st.desc, acc := st.acc, au := st.au, cons := st.cons,
     consLen := st.consLen, sqacc := st.sqacc, sqdesc := st.sqdesc, per := st.per, cutset := st.cutset, comments := st.comments,
     gf := st.gf, gsTags := st.gsTags, gs := st.gs, gcTags := st.gcTags, gc := st.gc, grTags := st.grTags, gr := st.gr }
 
@@ -289,9 +368,10 @@ def consVal (m : Msa) (p k : Nat) : Option Bytes :=
 /-- the annotation part of the state inside the block `[pos, pos+w)`, when the first `g` of the five `#=GC` slots have
     been dealt with: the header section is complete, slots `< g` have reached column `pos + w`, the others column `pos`;
     the rest is untouched -/
-structure Frozen (m : Msa) (pos w g : Nat) (a : Ann) : Prop where
+structure Frozen (m : Msa) (G : GsSt) (pos w g : Nat) (a : Ann) : Prop where
   lead : a.lead = false
-  hasw : a.hasw = false
+  hasw : a.hasw = G.hasw
+  wgt : G.hasw = true → a.wgt = G.wgt
   name : a.name = m.name
   desc : a.desc = m.desc
   acc : a.acc = m.acc
@@ -300,14 +380,14 @@ structure Frozen (m : Msa) (pos w g : Nat) (a : Ann) : Prop where
   consLen_len : a.consLen.length = 5
   cons : ∀ k, k < 5 → a.cons[k]? = some (consVal m (if k < g then pos + w else pos) k)
   consLen : ∀ k, k < 5 → ((consF m).getD k none).isSome = true → a.consLen[k]? = some (if k < g then pos + w else pos)
-  sqacc : a.sqacc = none
-  sqdesc : a.sqdesc = none
+  sqacc : a.sqacc = G.sqacc
+  sqdesc : a.sqdesc = G.sqdesc
   per : a.per = List.replicate 3 none
-  cutset : a.cutset = List.replicate 6 false
+  cutset : a.cutset = cutsetOf m
   comments : a.comments = m.comments
   gf : a.gf = m.gf
-  gsTags : a.gsTags = []
-  gs : a.gs = []
+  gsTags : a.gsTags = G.gsTags
+  gs : a.gs = G.gs
   gcTags : a.gcTags = []
   gc : a.gc = []
   grTags : a.grTags = []
@@ -325,8 +405,8 @@ def cntSet (m : Msa) (g : Nat) : Nat := ((((consF m).zip consLT).take g).filterM
 
 /-- inside the block that starts at column `pos` and is `w` columns wide: `jn` names are known, `jb` block lines are
     recorded, `j` sequence lines and `k` lines in all of this block have been read, `g` `#=GC` slots are done -/
-structure InBlk (cfg : Cfg) (enc : UInt8 → UInt8) (txt : Nat → Bytes) (m : Msa) (pos w jn jb j k g : Nat) (st : StoSt) : Prop where
-  fr : Frozen m pos w g (annOf st)
+structure InBlk (cfg : Cfg) (enc : UInt8 → UInt8) (txt : Nat → Bytes) (m : Msa) (G : GsSt) (pos w jn jb j k g : Nat) (st : StoSt) : Prop where
+  fr : Frozen m G pos w g (annOf st)
   alen : st.alen = pos
   nblock : st.nblock = 0 ↔ pos = 0
   names : st.names = m.names.take jn
@@ -348,7 +428,7 @@ structure InBlk (cfg : Cfg) (enc : UInt8 → UInt8) (txt : Nat → Bytes) (m : M
   bidx : ∀ i, i < jb → st.bidx[i]? = some ((blockSpec m)[i]?.map (·.2))
   npb : pos ≠ 0 → st.npb = (blockSpec m).length
   bi : st.bi = k
-  si : st.si = j
+  si : st.si = j ∨ (j = 0 ∧ pos = 0)
   nseqB : st.nseqB = j
   alenB : k ≠ 0 → st.alenB = w
   inBlock : st.inBlock = decide (k ≠ 0)
@@ -378,8 +458,8 @@ theorem nodup_not_mem_take (l : List Bytes) (hn : l.Nodup) (j : Nat) (hj : j < l
 
 /-- a new name: `stockholm_get_seqidx` stores it as sequence `jn` -/
 theorem getSeqIdx_new (cfg : Cfg) (enc : UInt8 → UInt8) (txt : Nat → Bytes) (m : Msa) (w jn jb j k g : Nat) (st : StoSt)
-    (h : InBlk cfg enc txt m 0 w jn jb j k g st) (hjn : jn < m.nseq) (hnd : m.names.Nodup) :
-    ∃ st1, getSeqIdx st (m.names.getD jn []) = .ok (st1, jn) ∧ InBlk cfg enc txt m 0 w (jn + 1) jb j k g st1 := by
+    (h : InBlk cfg enc txt m GsSt.none 0 w jn jb j k g st) (hjn : jn < m.nseq) (hnd : m.names.Nodup) :
+    ∃ st1, getSeqIdx st (m.names.getD jn []) = .ok (st1, jn) ∧ InBlk cfg enc txt m GsSt.none 0 w (jn + 1) jb j k g st1 := by
   have hjn' : jn < m.names.length := hjn
   have hlen : st.names.length = jn := by rw [h.names, List.length_take]; omega
   have hnone : st.names.findIdx? (· == m.names.getD jn []) = none := by
@@ -408,13 +488,13 @@ theorem getSeqIdx_new (cfg : Cfg) (enc : UInt8 → UInt8) (txt : Nat → Bytes) 
     have hap := h.apos
     exact
       { fr :=
-          { lead := hfr.lead, hasw := hfr.hasw, name := hfr.name, desc := hfr.desc, acc := hfr.acc, au := hfr.au,
+          { lead := hfr.lead, hasw := hfr.hasw, wgt := fun e => absurd e (by decide), name := hfr.name, desc := hfr.desc, acc := hfr.acc, au := hfr.au,
             cons_len := hfr.cons_len, consLen_len := hfr.consLen_len, cons := hfr.cons, consLen := hfr.consLen
-            sqacc := by have := hfr.sqacc; simp only [annOf] at this ⊢; simp [pdExpandSeq, msaExpand, this]
-            sqdesc := by have := hfr.sqdesc; simp only [annOf] at this ⊢; simp [pdExpandSeq, msaExpand, this]
+            sqacc := by have := hfr.sqacc; simp only [annOf, GsSt.none] at this ⊢; simp [pdExpandSeq, msaExpand, this]
+            sqdesc := by have := hfr.sqdesc; simp only [annOf, GsSt.none] at this ⊢; simp [pdExpandSeq, msaExpand, this]
             per := by have := hfr.per; simp only [annOf] at this ⊢; simp [pdExpandSeq, msaExpand, this]
             cutset := hfr.cutset, comments := hfr.comments, gf := hfr.gf, gsTags := hfr.gsTags
-            gs := by have := hfr.gs; simp only [annOf] at this ⊢; simp [pdExpandSeq, msaExpand, this]
+            gs := by have := hfr.gs; simp only [annOf, GsSt.none] at this ⊢; simp [pdExpandSeq, msaExpand, this]
             gcTags := hfr.gcTags, gc := hfr.gc, grTags := hfr.grTags
             gr := by have := hfr.gr; simp only [annOf] at this ⊢; simp [pdExpandSeq, msaExpand, this] }
         alen := h.alen, nblock := h.nblock
@@ -473,10 +553,10 @@ theorem set_rec {α : Type} (l : List α) (j : Nat) (v : α) (f : Nat → α) (h
   · simp only [e, if_false]; exact h i (by omega)
 
 /-- first block: the line is recorded as line `j` of the block -/
-theorem recordLine_new (cfg : Cfg) (enc : UInt8 → UInt8) (txt : Nat → Bytes) (m : Msa) (pos w jn jq j g : Nat) (st : StoSt)
+theorem recordLine_new (cfg : Cfg) (enc : UInt8 → UInt8) (txt : Nat → Bytes) (m : Msa) {G : GsSt} (pos w jn jq j g : Nat) (st : StoSt)
     (lt : Nat) (bx : Option Nat) (hspec : (blockSpec m)[j]? = some (lt, bx))
-    (h : InBlk cfg enc txt m pos w jn j jq j g st) :
-    ∃ st2, recordLine st lt bx = .ok st2 ∧ InBlk cfg enc txt m pos w jn (j + 1) jq j g st2 := by
+    (h : InBlk cfg enc txt m G pos w jn j jq j g st) :
+    ∃ st2, recordLine st lt bx = .ok st2 ∧ InBlk cfg enc txt m G pos w jn (j + 1) jq j g st2 := by
   have hfr := h.fr
   have hbi := h.bi
   have hnr := h.nrec
@@ -533,11 +613,11 @@ theorem recordLine_new (cfg : Cfg) (enc : UInt8 → UInt8) (txt : Nat → Bytes)
 
 /-- first block: a sequence line names a new sequence -/
 theorem sqLocate_first (cfg : Cfg) (enc : UInt8 → UInt8) (txt : Nat → Bytes) (m : Msa) (w j : Nat) (st : StoSt)
-    (h : InBlk cfg enc txt m 0 w j j j j 0 st) (hj : j < m.nseq) (hnd : m.names.Nodup) :
-    ∃ st2, sqLocate st (m.names.getD j []) = .ok (st2, j) ∧ InBlk cfg enc txt m 0 w (j + 1) (j + 1) j j 0 st2 := by
+    (h : InBlk cfg enc txt m GsSt.none 0 w j j j j 0 st) (hj : j < m.nseq) (hnd : m.names.Nodup) :
+    ∃ st2, sqLocate st (m.names.getD j []) = .ok (st2, j) ∧ InBlk cfg enc txt m GsSt.none 0 w (j + 1) (j + 1) j j 0 st2 := by
   have hnb : st.nblock = 0 := h.nblock.mpr rfl
   have hlen : st.names.length = j := by rw [h.names, List.length_take]; have : j < m.names.length := hj; omega
-  have hsi : ¬ (st.si < st.nseq) := by rw [h.si, h.nseq, hlen]; omega
+  have hsi : ¬ (st.si < st.nseq) := by rw [h.nseq, hlen]; rcases h.si with e | ⟨e, _⟩ <;> omega
   obtain ⟨st1, h1, hI1⟩ := getSeqIdx_new cfg enc txt m w j j j j 0 st h hj hnd
   obtain ⟨st2, h2, hI2⟩ := recordLine_new cfg enc txt m 0 w (j + 1) j j 0 st1 ltSQ (some j) (blockSpec_sq m j hj) hI1
   refine ⟨st2, ?_, hI2⟩
@@ -545,8 +625,8 @@ theorem sqLocate_first (cfg : Cfg) (enc : UInt8 → UInt8) (txt : Nat → Bytes)
   simp only [hnb, beq_self_eq_true, if_true, hsi, if_false, h1, h2]
 
 /-- later blocks: the line must be the one recorded for this position -/
-theorem sqLocate_later (cfg : Cfg) (enc : UInt8 → UInt8) (txt : Nat → Bytes) (m : Msa) (pos w j : Nat) (st : StoSt)
-    (h : InBlk cfg enc txt m pos w m.nseq (blockSpec m).length j j 0 st) (hj : j < m.nseq) (hpos : pos ≠ 0) :
+theorem sqLocate_later (cfg : Cfg) (enc : UInt8 → UInt8) (txt : Nat → Bytes) (m : Msa) {G : GsSt} (pos w j : Nat) (st : StoSt)
+    (h : InBlk cfg enc txt m G pos w m.nseq (blockSpec m).length j j 0 st) (hj : j < m.nseq) (hpos : pos ≠ 0) :
     sqLocate st (m.names.getD j []) = .ok (st, j) := by
   have hjb : j < (blockSpec m).length := by rw [blockSpec_len]; omega
   have hblt := h.blt j hjb
@@ -566,12 +646,12 @@ theorem sqLocate_later (cfg : Cfg) (enc : UInt8 → UInt8) (txt : Nat → Bytes)
   simp
 
 /-- the rest of `stockholm_parse_sq` once the sequence is located: the piece is appended to row `j` -/
-theorem parseSq_after (cfg : Cfg) (enc : UInt8 → UInt8) (txt : Nat → Bytes) (m : Msa) (pos w jn jb j k g : Nat) (st st2 : StoSt)
+theorem parseSq_after (cfg : Cfg) (enc : UInt8 → UInt8) (txt : Nat → Bytes) (m : Msa) {G : GsSt} (pos w jn jb j k g : Nat) (st st2 : StoSt)
     (p nm c : Bytes) (hm : memtok p blankTab = some (nm, c)) (hc : ChunkOk c) (hloc : sqLocate st nm = .ok (st2, j))
-    (h2 : InBlk cfg enc txt m pos w jn jb j k g st2) (hj : j < jn) (hjn : jn ≤ m.nseq)
+    (h2 : InBlk cfg enc txt m G pos w jn jb j k g st2) (hj : j < jn) (hjn : jn ≤ m.nseq)
     (hcj : c = ((txt j).drop pos).take w) (hw : 1 ≤ w) (hpw : pos + w ≤ m.alen) (htl : (txt j).length = m.alen)
     (hsym : ∀ t ∈ txt j, mapByte cfg.inmap t = (.ok, some (enc t))) :
-    ∃ st3, parseSq cfg st p = .ok st3 ∧ InBlk cfg enc txt m pos w jn jb (j + 1) (k + 1) g st3 := by
+    ∃ st3, parseSq cfg st p = .ok st3 ∧ InBlk cfg enc txt m G pos w jn jb (j + 1) (k + 1) g st3 := by
   have hfr := h2.fr
   have hjs : j < m.nseq := by omega
   have hjl : j < st2.names.length := by
@@ -630,7 +710,7 @@ theorem parseSq_after (cfg : Cfg) (enc : UInt8 → UInt8) (txt : Nat → Bytes) 
       bpos := h2.bpos, blt_len := h2.blt_len, bidx_len := h2.bidx_len, nrec := h2.nrec, blt := h2.blt, bidx := h2.bidx
       npb := h2.npb
       bi := by show st2.bi + 1 = k + 1; rw [h2.bi]
-      si := rfl
+      si := Or.inl rfl
       nseqB := by show st2.nseqB + 1 = j + 1; rw [h2.nseqB]
       alenB := fun _ => by first | rfl | exact hcl
       inBlock := by show true = decide (k + 1 ≠ 0); simp }
@@ -655,9 +735,9 @@ theorem sqline_shape (abc : Option Abc) (cfg : Cfg) (enc : UInt8 → UInt8) (txt
 
 /-- one sequence line of the first block -/
 theorem sqline_first (abc : Option Abc) (cfg : Cfg) (enc : UInt8 → UInt8) (txt : Nat → Bytes) (m : Msa)
-    (W : StoWritable abc cfg enc txt m) (w j : Nat) (st : StoSt) (h : InBlk cfg enc txt m 0 w j j j j 0 st)
+    (W : StoWritable abc cfg enc txt m) (w j : Nat) (st : StoSt) (h : InBlk cfg enc txt m GsSt.none 0 w j j j j 0 st)
     (hj : j < m.nseq) (hw : 1 ≤ w) (hpw : w ≤ m.alen) :
-    ∃ st3, stoStep cfg st (stoSqLine abc m 0 w j) = .inl st3 ∧ InBlk cfg enc txt m 0 w (j + 1) (j + 1) (j + 1) (j + 1) 0 st3 := by
+    ∃ st3, stoStep cfg st (stoSqLine abc m 0 w j) = .inl st3 ∧ InBlk cfg enc txt m GsSt.none 0 w (j + 1) (j + 1) (j + 1) (j + 1) 0 st3 := by
   obtain ⟨sp, c, hline, hsp, hc, hcj⟩ := sqline_shape abc cfg enc txt m W 0 w j hj hw (by omega)
   obtain ⟨st2, hloc, h2⟩ := sqLocate_first cfg enc txt m w j st h hj W.nodup
   have hn := W.name_ok j hj
@@ -668,11 +748,11 @@ theorem sqline_first (abc : Option Abc) (cfg : Cfg) (enc : UInt8 → UInt8) (txt
   rw [hline, stoStep_sqline cfg st _ sp c h.fr.lead hn hsp, hp]; rfl
 
 /-- one sequence line of a later block -/
-theorem sqline_later (abc : Option Abc) (cfg : Cfg) (enc : UInt8 → UInt8) (txt : Nat → Bytes) (m : Msa)
-    (W : StoWritable abc cfg enc txt m) (pos w j : Nat) (st : StoSt) (h : InBlk cfg enc txt m pos w m.nseq (blockSpec m).length j j 0 st)
+theorem sqline_later (abc : Option Abc) (cfg : Cfg) (enc : UInt8 → UInt8) (txt : Nat → Bytes) (m : Msa) {G : GsSt}
+    (W : StoWritable abc cfg enc txt m) (pos w j : Nat) (st : StoSt) (h : InBlk cfg enc txt m G pos w m.nseq (blockSpec m).length j j 0 st)
     (hpos : pos ≠ 0) (hj : j < m.nseq) (hw : 1 ≤ w) (hpw : pos + w ≤ m.alen) :
     ∃ st3, stoStep cfg st (stoSqLine abc m pos w j) = .inl st3 ∧
-      InBlk cfg enc txt m pos w m.nseq (blockSpec m).length (j + 1) (j + 1) 0 st3 := by
+      InBlk cfg enc txt m G pos w m.nseq (blockSpec m).length (j + 1) (j + 1) 0 st3 := by
   obtain ⟨sp, c, hline, hsp, hc, hcj⟩ := sqline_shape abc cfg enc txt m W pos w j hj hw hpw
   have hloc := sqLocate_later cfg enc txt m pos w j st h hj hpos
   have hn := W.name_ok j hj
@@ -686,9 +766,9 @@ theorem sqline_later (abc : Option Abc) (cfg : Cfg) (enc : UInt8 → UInt8) (txt
 
 /-- the sequence lines of the first block -/
 theorem sqlines_first (abc : Option Abc) (cfg : Cfg) (enc : UInt8 → UInt8) (txt : Nat → Bytes) (m : Msa)
-    (W : StoWritable abc cfg enc txt m) (w : Nat) (st : StoSt) (h : InBlk cfg enc txt m 0 w 0 0 0 0 0 st) (hw : 1 ≤ w) (hpw : w ≤ m.alen) :
+    (W : StoWritable abc cfg enc txt m) (w : Nat) (st : StoSt) (h : InBlk cfg enc txt m GsSt.none 0 w 0 0 0 0 0 st) (hw : 1 ≤ w) (hpw : w ≤ m.alen) :
     ∀ j, j ≤ m.nseq → ∃ st', stepsFrom (stoStep cfg) st ((List.range j).map (stoSqLine abc m 0 w)) = .inl st' ∧
-      InBlk cfg enc txt m 0 w j j j j 0 st' := by
+      InBlk cfg enc txt m GsSt.none 0 w j j j j 0 st' := by
   intro j
   induction j with
   | zero => intro _; exact ⟨st, rfl, h⟩
@@ -701,11 +781,11 @@ theorem sqlines_first (abc : Option Abc) (cfg : Cfg) (enc : UInt8 → UInt8) (tx
     simp [stepsFrom, hs2]
 
 /-- the sequence lines of a later block -/
-theorem sqlines_later (abc : Option Abc) (cfg : Cfg) (enc : UInt8 → UInt8) (txt : Nat → Bytes) (m : Msa)
-    (W : StoWritable abc cfg enc txt m) (pos w : Nat) (st : StoSt) (h : InBlk cfg enc txt m pos w m.nseq (blockSpec m).length 0 0 0 st)
+theorem sqlines_later (abc : Option Abc) (cfg : Cfg) (enc : UInt8 → UInt8) (txt : Nat → Bytes) (m : Msa) {G : GsSt}
+    (W : StoWritable abc cfg enc txt m) (pos w : Nat) (st : StoSt) (h : InBlk cfg enc txt m G pos w m.nseq (blockSpec m).length 0 0 0 st)
     (hpos : pos ≠ 0) (hw : 1 ≤ w) (hpw : pos + w ≤ m.alen) :
     ∀ j, j ≤ m.nseq → ∃ st', stepsFrom (stoStep cfg) st ((List.range j).map (stoSqLine abc m pos w)) = .inl st' ∧
-      InBlk cfg enc txt m pos w m.nseq (blockSpec m).length j j 0 st' := by
+      InBlk cfg enc txt m G pos w m.nseq (blockSpec m).length j j 0 st' := by
   intro j
   induction j with
   | zero => intro _; exact ⟨st, rfl, h⟩
@@ -718,10 +798,10 @@ theorem sqlines_later (abc : Option Abc) (cfg : Cfg) (enc : UInt8 → UInt8) (tx
     simp [stepsFrom, hs2]
 
 /-- the end-of-block bookkeeping after a complete block -/
-theorem endBlock_full (cfg : Cfg) (enc : UInt8 → UInt8) (txt : Nat → Bytes) (m : Msa) (pos w w' jn : Nat) (st : StoSt)
-    (h : InBlk cfg enc txt m pos w jn (blockSpec m).length m.nseq (blockSpec m).length 5 st) (hjn : jn = m.nseq)
+theorem endBlock_full (cfg : Cfg) (enc : UInt8 → UInt8) (txt : Nat → Bytes) (m : Msa) {G : GsSt} (pos w w' jn : Nat) (st : StoSt)
+    (h : InBlk cfg enc txt m G pos w jn (blockSpec m).length m.nseq (blockSpec m).length 5 st) (hjn : jn = m.nseq)
     (hn1 : 1 ≤ m.nseq) (hw : 1 ≤ w) :
-    ∃ st', endBlock st = .ok st' ∧ InBlk cfg enc txt m (pos + w) w' m.nseq (blockSpec m).length 0 0 0 st' := by
+    ∃ st', endBlock st = .ok st' ∧ InBlk cfg enc txt m G (pos + w) w' m.nseq (blockSpec m).length 0 0 0 st' := by
   subst hjn
   have hfr := h.fr
   have hk0 : (blockSpec m).length ≠ 0 := by rw [blockSpec_len]; omega
@@ -742,7 +822,7 @@ theorem endBlock_full (cfg : Cfg) (enc : UInt8 → UInt8) (txt : Nat → Bytes) 
   refine ⟨_, rfl, ?_⟩
   exact
     { fr :=
-        { lead := hfr.lead, hasw := hfr.hasw, name := hfr.name, desc := hfr.desc, acc := hfr.acc, au := hfr.au,
+        { lead := hfr.lead, hasw := hfr.hasw, wgt := hfr.wgt, name := hfr.name, desc := hfr.desc, acc := hfr.acc, au := hfr.au,
           cons_len := hfr.cons_len, consLen_len := hfr.consLen_len
           cons := fun k hk => by
             have := hfr.cons k hk; rw [if_pos hk] at this; rw [if_neg (Nat.not_lt_zero k)]; exact this
@@ -773,7 +853,7 @@ theorem endBlock_full (cfg : Cfg) (enc : UInt8 → UInt8) (txt : Nat → Bytes) 
           rw [if_neg hi] at this ⊢; exact this
       bpos := h.bpos, blt_len := h.blt_len, bidx_len := h.bidx_len, nrec := h.nrec, blt := h.blt, bidx := h.bidx
       npb := fun _ => h.bi
-      bi := rfl, si := rfl, nseqB := rfl
+      bi := rfl, si := Or.inl rfl, nseqB := rfl
       alenB := fun e => absurd rfl e
       inBlock := by show false = decide ((0 : Nat) ≠ 0); simp }
 
@@ -910,9 +990,9 @@ theorem consTag_lt (g : Nat) (hg : g < 5) :
   · omega
 
 /-- first block: the `#=GC` line is recorded as line `k` -/
-theorem gcLocate_first (cfg : Cfg) (enc : UInt8 → UInt8) (txt : Nat → Bytes) (m : Msa) (w jn jq k g : Nat) (st : StoSt) (lt : Nat)
-    (hspec : (blockSpec m)[k]? = some (lt, none)) (h : InBlk cfg enc txt m 0 w jn k jq k g st) :
-    ∃ st1, gcLocate st lt = .ok st1 ∧ InBlk cfg enc txt m 0 w jn (k + 1) jq k g st1 := by
+theorem gcLocate_first (cfg : Cfg) (enc : UInt8 → UInt8) (txt : Nat → Bytes) (m : Msa) {G : GsSt} (w jn jq k g : Nat) (st : StoSt) (lt : Nat)
+    (hspec : (blockSpec m)[k]? = some (lt, none)) (h : InBlk cfg enc txt m G 0 w jn k jq k g st) :
+    ∃ st1, gcLocate st lt = .ok st1 ∧ InBlk cfg enc txt m G 0 w jn (k + 1) jq k g st1 := by
   have hnb : st.nblock = 0 := h.nblock.mpr rfl
   obtain ⟨st1, h1, hI1⟩ := recordLine_new cfg enc txt m 0 w jn jq k g st lt none hspec h
   refine ⟨st1, ?_, hI1⟩
@@ -920,8 +1000,8 @@ theorem gcLocate_first (cfg : Cfg) (enc : UInt8 → UInt8) (txt : Nat → Bytes)
   simp [hnb, h1]
 
 /-- later blocks: the `#=GC` line must be the one recorded at this position -/
-theorem gcLocate_later (cfg : Cfg) (enc : UInt8 → UInt8) (txt : Nat → Bytes) (m : Msa) (pos w jn jq k g : Nat) (st : StoSt) (lt : Nat)
-    (hspec : (blockSpec m)[k]? = some (lt, none)) (h : InBlk cfg enc txt m pos w jn (blockSpec m).length jq k g st) (hpos : pos ≠ 0) :
+theorem gcLocate_later (cfg : Cfg) (enc : UInt8 → UInt8) (txt : Nat → Bytes) (m : Msa) {G : GsSt} (pos w jn jq k g : Nat) (st : StoSt) (lt : Nat)
+    (hspec : (blockSpec m)[k]? = some (lt, none)) (h : InBlk cfg enc txt m G pos w jn (blockSpec m).length jq k g st) (hpos : pos ≠ 0) :
     gcLocate st lt = .ok st := by
   have hnb : (st.nblock != 0) = true := by
     have : st.nblock ≠ 0 := fun e => hpos (h.nblock.mp e)
@@ -936,13 +1016,13 @@ theorem gcLocate_later (cfg : Cfg) (enc : UInt8 → UInt8) (txt : Nat → Bytes)
   simp
 
 /-- the rest of `stockholm_parse_gc` once the line is located: the piece is appended to slot `g` -/
-theorem parseGc_after (cfg : Cfg) (enc : UInt8 → UInt8) (txt : Nat → Bytes) (m : Msa) (pos w jn jb j k g : Nat) (st st1 : StoSt)
+theorem parseGc_after (cfg : Cfg) (enc : UInt8 → UInt8) (txt : Nat → Bytes) (m : Msa) {G : GsSt} (pos w jn jb j k g : Nat) (st st1 : StoSt)
     (p p1 tag c s : Bytes) (hm1 : memtok p blankTab = some (bGC, p1)) (hm2 : memtok p1 blankTab = some (tag, c)) (hc : ChunkOk c)
     (hlt : consIdx (gcLineType tag) = some g) (hloc : gcLocate st (gcLineType tag) = .ok st1)
-    (h1 : InBlk cfg enc txt m pos w jn jb j k g st1) (hg : g < 5) (hs : (consF m).getD g none = some s)
+    (h1 : InBlk cfg enc txt m G pos w jn jb j k g st1) (hg : g < 5) (hs : (consF m).getD g none = some s)
     (hsl : s.length = m.alen) (hs0 : ∀ t ∈ s, t ≠ 0) (hcj : c = (s.drop pos).take w) (hw : 1 ≤ w) (hpw : pos + w ≤ m.alen)
     (hk : k ≠ 0) :
-    ∃ st3, parseGc st p = .ok st3 ∧ InBlk cfg enc txt m pos w jn jb j (k + 1) (g + 1) st3 := by
+    ∃ st3, parseGc st p = .ok st3 ∧ InBlk cfg enc txt m G pos w jn jb j (k + 1) (g + 1) st3 := by
   have hfr := h1.fr
   have hcl : c.length = w := by rw [hcj, List.length_take, List.length_drop, hsl]; omega
   have hcne : c.isEmpty = false := by
@@ -977,7 +1057,7 @@ theorem parseGc_after (cfg : Cfg) (enc : UInt8 → UInt8) (txt : Nat → Bytes) 
   refine ⟨_, rfl, ?_⟩
   exact
     { fr :=
-        { lead := hfr.lead, hasw := hfr.hasw, name := hfr.name, desc := hfr.desc, acc := hfr.acc, au := hfr.au,
+        { lead := hfr.lead, hasw := hfr.hasw, wgt := hfr.wgt, name := hfr.name, desc := hfr.desc, acc := hfr.acc, au := hfr.au,
           cons_len := by show (st1.cons.set g _).length = 5; rw [List.length_set]; exact hfr.cons_len
           consLen_len := by show (st1.consLen.set g _).length = 5; rw [List.length_set]; exact hfr.consLen_len
           cons := fun i hi => by
@@ -1044,9 +1124,9 @@ theorem gcline_shape (m : Msa) (hp : StoAnn m) (pos w g : Nat) (hg : g < 5) (s :
   · intro t ht
     exact hsc t (List.mem_of_mem_drop (List.mem_of_mem_take ht))
 
-theorem Frozen_skip (m : Msa) (pos w g : Nat) (a : Ann) (hs : (consF m).getD g none = none) (h : Frozen m pos w g a) :
-    Frozen m pos w (g + 1) a :=
-  { lead := h.lead, hasw := h.hasw, name := h.name, desc := h.desc, acc := h.acc, au := h.au,
+theorem Frozen_skip (m : Msa) {G : GsSt} (pos w g : Nat) (a : Ann) (hs : (consF m).getD g none = none) (h : Frozen m G pos w g a) :
+    Frozen m G pos w (g + 1) a :=
+  { lead := h.lead, hasw := h.hasw, wgt := h.wgt, name := h.name, desc := h.desc, acc := h.acc, au := h.au,
     cons_len := h.cons_len, consLen_len := h.consLen_len
     cons := fun i hi => by
       by_cases e : i = g
@@ -1063,9 +1143,9 @@ theorem Frozen_skip (m : Msa) (pos w g : Nat) (a : Ann) (hs : (consF m).getD g n
     sqacc := h.sqacc, sqdesc := h.sqdesc, per := h.per, cutset := h.cutset, comments := h.comments, gf := h.gf
     gsTags := h.gsTags, gs := h.gs, gcTags := h.gcTags, gc := h.gc, grTags := h.grTags, gr := h.gr }
 
-theorem InBlk_skip (cfg : Cfg) (enc : UInt8 → UInt8) (txt : Nat → Bytes) (m : Msa) (pos w jn jb j k g : Nat) (st : StoSt)
-    (hs : (consF m).getD g none = none) (h : InBlk cfg enc txt m pos w jn jb j k g st) :
-    InBlk cfg enc txt m pos w jn jb j k (g + 1) st :=
+theorem InBlk_skip (cfg : Cfg) (enc : UInt8 → UInt8) (txt : Nat → Bytes) (m : Msa) {G : GsSt} (pos w jn jb j k g : Nat) (st : StoSt)
+    (hs : (consF m).getD g none = none) (h : InBlk cfg enc txt m G pos w jn jb j k g st) :
+    InBlk cfg enc txt m G pos w jn jb j k (g + 1) st :=
   { fr := Frozen_skip m pos w g _ hs h.fr
     alen := h.alen, nblock := h.nblock, names := h.names, nseq := h.nseq, alloc := h.alloc, apos := h.apos
     rows_len := h.rows_len, rows_done := h.rows_done, rows_todo := h.rows_todo, salloc := h.salloc
@@ -1074,11 +1154,11 @@ theorem InBlk_skip (cfg : Cfg) (enc : UInt8 → UInt8) (txt : Nat → Bytes) (m 
     npb := h.npb, bi := h.bi, si := h.si, nseqB := h.nseqB, alenB := h.alenB, inBlock := h.inBlock }
 
 /-- slot `g` of the `#=GC` lines, first block -/
-theorem gcSlot_first (abc : Option Abc) (cfg : Cfg) (enc : UInt8 → UInt8) (txt : Nat → Bytes) (m : Msa)
+theorem gcSlot_first (abc : Option Abc) (cfg : Cfg) (enc : UInt8 → UInt8) (txt : Nat → Bytes) (m : Msa) {G : GsSt}
     (W : StoWritable abc cfg enc txt m) (w g : Nat) (st : StoSt) (hg : g < 5)
-    (h : InBlk cfg enc txt m 0 w m.nseq (m.nseq + cntSet m g) m.nseq (m.nseq + cntSet m g) g st) (hw : 1 ≤ w) (hpw : w ≤ m.alen) :
+    (h : InBlk cfg enc txt m G 0 w m.nseq (m.nseq + cntSet m g) m.nseq (m.nseq + cntSet m g) g st) (hw : 1 ≤ w) (hpw : w ≤ m.alen) :
     ∃ st', stepsFrom (stoStep cfg) st (gcSlotLines m 0 w g) = .inl st' ∧
-      InBlk cfg enc txt m 0 w m.nseq (m.nseq + cntSet m (g + 1)) m.nseq (m.nseq + cntSet m (g + 1)) (g + 1) st' := by
+      InBlk cfg enc txt m G 0 w m.nseq (m.nseq + cntSet m (g + 1)) m.nseq (m.nseq + cntSet m (g + 1)) (g + 1) st' := by
   cases hs : (consF m).getD g none with
   | none =>
     refine ⟨st, by unfold gcSlotLines; rw [hs]; rfl, ?_⟩
@@ -1104,11 +1184,11 @@ theorem gcSlot_first (abc : Option Abc) (cfg : Cfg) (enc : UInt8 → UInt8) (txt
     rw [hline, stoStep_gcline cfg st _ h.fr.lead, hp]; rfl
 
 /-- slot `g` of the `#=GC` lines, later blocks -/
-theorem gcSlot_later (abc : Option Abc) (cfg : Cfg) (enc : UInt8 → UInt8) (txt : Nat → Bytes) (m : Msa)
+theorem gcSlot_later (abc : Option Abc) (cfg : Cfg) (enc : UInt8 → UInt8) (txt : Nat → Bytes) (m : Msa) {G : GsSt}
     (W : StoWritable abc cfg enc txt m) (pos w g : Nat) (st : StoSt) (hg : g < 5) (hpos : pos ≠ 0)
-    (h : InBlk cfg enc txt m pos w m.nseq (blockSpec m).length m.nseq (m.nseq + cntSet m g) g st) (hw : 1 ≤ w) (hpw : pos + w ≤ m.alen) :
+    (h : InBlk cfg enc txt m G pos w m.nseq (blockSpec m).length m.nseq (m.nseq + cntSet m g) g st) (hw : 1 ≤ w) (hpw : pos + w ≤ m.alen) :
     ∃ st', stepsFrom (stoStep cfg) st (gcSlotLines m pos w g) = .inl st' ∧
-      InBlk cfg enc txt m pos w m.nseq (blockSpec m).length m.nseq (m.nseq + cntSet m (g + 1)) (g + 1) st' := by
+      InBlk cfg enc txt m G pos w m.nseq (blockSpec m).length m.nseq (m.nseq + cntSet m (g + 1)) (g + 1) st' := by
   cases hs : (consF m).getD g none with
   | none =>
     refine ⟨st, by unfold gcSlotLines; rw [hs]; rfl, ?_⟩
@@ -1137,15 +1217,15 @@ theorem cntSet_zero (m : Msa) : cntSet m 0 = 0 := rfl
 
 /-- the whole first block -/
 theorem block_first (abc : Option Abc) (cfg : Cfg) (enc : UInt8 → UInt8) (txt : Nat → Bytes) (m : Msa)
-    (W : StoWritable abc cfg enc txt m) (cpl : Nat) (st : StoSt) (h : InBlk cfg enc txt m 0 (stoW m cpl 0) 0 0 0 0 0 st)
+    (W : StoWritable abc cfg enc txt m) (cpl : Nat) (st : StoSt) (h : InBlk cfg enc txt m GsSt.none 0 (stoW m cpl 0) 0 0 0 0 0 st)
     (hc : 0 < cpl) :
     ∃ st', stepsFrom (stoStep cfg) st (stoAnnBlock abc m cpl 0) = .inl st' ∧
-      InBlk cfg enc txt m 0 (stoW m cpl 0) m.nseq (blockSpec m).length m.nseq (blockSpec m).length 5 st' := by
+      InBlk cfg enc txt m GsSt.none 0 (stoW m cpl 0) m.nseq (blockSpec m).length m.nseq (blockSpec m).length 5 st' := by
   have ha1 := W.alen1
   have hw1 : 1 ≤ stoW m cpl 0 := by unfold stoW; split <;> omega
   have hw2 : stoW m cpl 0 ≤ m.alen := by unfold stoW; split <;> omega
   obtain ⟨s0, e0, h0⟩ := sqlines_first abc cfg enc txt m W _ st h hw1 hw2 m.nseq (Nat.le_refl _)
-  have h0' : InBlk cfg enc txt m 0 (stoW m cpl 0) m.nseq (m.nseq + cntSet m 0) m.nseq (m.nseq + cntSet m 0) 0 s0 := h0
+  have h0' : InBlk cfg enc txt m GsSt.none 0 (stoW m cpl 0) m.nseq (m.nseq + cntSet m 0) m.nseq (m.nseq + cntSet m 0) 0 s0 := h0
   obtain ⟨s1, e1, h1⟩ := gcSlot_first abc cfg enc txt m W _ 0 s0 (by omega) h0' hw1 hw2
   obtain ⟨s2, e2, h2⟩ := gcSlot_first abc cfg enc txt m W _ 1 s1 (by omega) h1 hw1 hw2
   obtain ⟨s3, e3, h3⟩ := gcSlot_first abc cfg enc txt m W _ 2 s2 (by omega) h2 hw1 hw2
@@ -1160,19 +1240,19 @@ theorem block_first (abc : Option Abc) (cfg : Cfg) (enc : UInt8 → UInt8) (txt 
   exact e5
 
 /-- a whole later block: the blank line, the sequence lines, the `#=GC` lines -/
-theorem block_later (abc : Option Abc) (cfg : Cfg) (enc : UInt8 → UInt8) (txt : Nat → Bytes) (m : Msa)
+theorem block_later (abc : Option Abc) (cfg : Cfg) (enc : UInt8 → UInt8) (txt : Nat → Bytes) (m : Msa) {G : GsSt}
     (W : StoWritable abc cfg enc txt m) (cpl p w pos : Nat) (st : StoSt)
-    (h : InBlk cfg enc txt m p w m.nseq (blockSpec m).length m.nseq (blockSpec m).length 5 st)
+    (h : InBlk cfg enc txt m G p w m.nseq (blockSpec m).length m.nseq (blockSpec m).length 5 st)
     (hpw : p + w = pos) (hw : 1 ≤ w) (hlt : pos < m.alen) (hc : 0 < cpl) :
     ∃ st', stepsFrom (stoStep cfg) st (stoAnnBlock abc m cpl pos) = .inl st' ∧
-      InBlk cfg enc txt m pos (stoW m cpl pos) m.nseq (blockSpec m).length m.nseq (blockSpec m).length 5 st' := by
+      InBlk cfg enc txt m G pos (stoW m cpl pos) m.nseq (blockSpec m).length m.nseq (blockSpec m).length 5 st' := by
   have hpos : pos ≠ 0 := by omega
   have hw1 : 1 ≤ stoW m cpl pos := by unfold stoW; split <;> omega
   have hw2 : pos + stoW m cpl pos ≤ m.alen := by unfold stoW; split <;> omega
   obtain ⟨st1, he, h1⟩ := endBlock_full cfg enc txt m p w (stoW m cpl pos) m.nseq st h rfl W.n1 hw
   rw [hpw] at h1
   obtain ⟨s0, e0, h0⟩ := sqlines_later abc cfg enc txt m W pos _ st1 h1 hpos hw1 hw2 m.nseq (Nat.le_refl _)
-  have h0' : InBlk cfg enc txt m pos (stoW m cpl pos) m.nseq (blockSpec m).length m.nseq (m.nseq + cntSet m 0) 0 s0 := h0
+  have h0' : InBlk cfg enc txt m G pos (stoW m cpl pos) m.nseq (blockSpec m).length m.nseq (m.nseq + cntSet m 0) 0 s0 := h0
   obtain ⟨s1, e1, h1'⟩ := gcSlot_later abc cfg enc txt m W pos _ 0 s0 (by omega) hpos h0' hw1 hw2
   obtain ⟨s2, e2, h2⟩ := gcSlot_later abc cfg enc txt m W pos _ 1 s1 (by omega) hpos h1' hw1 hw2
   obtain ⟨s3, e3, h3⟩ := gcSlot_later abc cfg enc txt m W pos _ 2 s2 (by omega) hpos h2 hw1 hw2
@@ -1188,13 +1268,13 @@ theorem block_later (abc : Option Abc) (cfg : Cfg) (enc : UInt8 → UInt8) (txt 
   exact e5
 
 /-- all the later blocks -/
-theorem blocks_later (abc : Option Abc) (cfg : Cfg) (enc : UInt8 → UInt8) (txt : Nat → Bytes) (m : Msa)
+theorem blocks_later (abc : Option Abc) (cfg : Cfg) (enc : UInt8 → UInt8) (txt : Nat → Bytes) (m : Msa) {G : GsSt}
     (W : StoWritable abc cfg enc txt m) (cpl : Nat) (hc : 0 < cpl) :
     ∀ k pos, m.alen - pos ≤ k → ∀ (st : StoSt) (p w : Nat),
-      InBlk cfg enc txt m p w m.nseq (blockSpec m).length m.nseq (blockSpec m).length 5 st →
+      InBlk cfg enc txt m G p w m.nseq (blockSpec m).length m.nseq (blockSpec m).length 5 st →
       p + w = min pos m.alen → 1 ≤ w →
       ∃ st' p' w', stepsFrom (stoStep cfg) st ((blockStartsFrom m.alen cpl pos).flatMap (stoAnnBlock abc m cpl)) = .inl st' ∧
-        InBlk cfg enc txt m p' w' m.nseq (blockSpec m).length m.nseq (blockSpec m).length 5 st' ∧ p' + w' = m.alen ∧ 1 ≤ w' := by
+        InBlk cfg enc txt m G p' w' m.nseq (blockSpec m).length m.nseq (blockSpec m).length 5 st' ∧ p' + w' = m.alen ∧ 1 ≤ w' := by
   intro k
   induction k with
   | zero =>
@@ -1217,7 +1297,9 @@ theorem blocks_later (abc : Option Abc) (cfg : Cfg) (enc : UInt8 → UInt8) (txt
       exact ⟨st, p, w, rfl, h, by omega, hw⟩
 
 /-- the reader's state behind the header section -/
-def headSt (m : Msa) : StoSt := { lead := false, name := m.name, desc := m.desc, acc := m.acc, au := m.au }
+def headSt (m : Msa) : StoSt :=
+  { lead := false, name := m.name, desc := m.desc, acc := m.acc, au := m.au, cutset := cutsetOf m,
+    comments := m.comments, commentAlloc := comAllocN m.comments.length, gf := m.gf, gfAlloc := gfAllocN m.gf.length }
 
 /-! ## the header section -/
 
@@ -1292,60 +1374,393 @@ theorem parseGf_au (st : StoSt) (sp val : Bytes) (hs : SpOk sp) (hv : gfTextOk v
   simp only [hm1, hm2, hcs]
   simp [memstrcmp, bGF, bID, bAC, bDE, bAU]
 
-/-- the header section leaves the reader with the four `#=GF` fields set -/
+theorem comAllocN_ge (n : Nat) : (n = 0 ∧ comAllocN n = 0) ∨ (1 ≤ n ∧ n ≤ comAllocN n) := by
+  induction n with
+  | zero => exact Or.inl ⟨rfl, rfl⟩
+  | succ n ih =>
+    right
+    refine ⟨by omega, ?_⟩
+    simp only [comAllocN]
+    rcases ih with ⟨h0, ha⟩ | ⟨h1, h2⟩
+    · subst h0; simp [ha]
+    · have hne : (comAllocN n == 0) = false := by simp; omega
+      simp only [hne, Bool.false_eq_true, if_false]
+      split
+      · rename_i he; simp at he; omega
+      · rename_i he; simp at he; omega
+
+theorem gfAllocN_ge (n : Nat) : (n = 0 ∧ gfAllocN n = 0) ∨ (1 ≤ n ∧ n ≤ gfAllocN n) := by
+  induction n with
+  | zero => exact Or.inl ⟨rfl, rfl⟩
+  | succ n ih =>
+    right
+    refine ⟨by omega, ?_⟩
+    simp only [gfAllocN]
+    rcases ih with ⟨h0, ha⟩ | ⟨h1, h2⟩
+    · subst h0; simp [ha]
+    · have hne : (gfAllocN n == 0) = false := by simp; omega
+      simp only [hne, Bool.false_eq_true, if_false]
+      split
+      · rename_i he; simp at he; omega
+      · rename_i he; simp at he; omega
+
+theorem comAllocN_succ (n : Nat) :
+    comAllocN (n + 1) = if n == (if comAllocN n == 0 then 16 else comAllocN n) then (if comAllocN n == 0 then 16 else comAllocN n) * 2
+      else (if comAllocN n == 0 then 16 else comAllocN n) := rfl
+
+theorem parseComment_ok (st : StoSt) (c : Bytes) (hc : comOk c) (ha : st.commentAlloc = comAllocN st.comments.length) :
+    parseComment st (35 :: c) = .ok { st with comments := st.comments ++ [c], commentAlloc := comAllocN (st.comments.length + 1) } := by
+  obtain ⟨h1, h2, _, _, _, _, _, _⟩ := hc
+  have hdw : c.dropWhile isSpace = c := by
+    cases c with
+    | nil => rfl
+    | cons x t => simp [List.dropWhile, h1 x rfl]
+  have hcs : cstr c = c := cstr_id c (fun x hx e => h2 (e ▸ hx))
+  have hnf : ¬ (st.comments.length ≥ comAllocN (st.comments.length + 1)) := by
+    have := comAllocN_ge (st.comments.length + 1)
+    omega
+  have hal : (if (st.comments.length == (if (comAllocN st.comments.length == 0) then 16 else comAllocN st.comments.length))
+      then (if (comAllocN st.comments.length == 0) then 16 else comAllocN st.comments.length) * 2
+      else (if (comAllocN st.comments.length == 0) then 16 else comAllocN st.comments.length))
+      = comAllocN (st.comments.length + 1) := (comAllocN_succ _).symm
+  unfold parseComment
+  simp only [show ((35 : UInt8) == 35) = true by decide, if_true, hdw, hcs, ha, hal, hnf, if_false]
+
+theorem stoStep_comment (cfg : Cfg) (st : StoSt) (c : Bytes) (hl : st.lead = false) (hc : comOk c)
+    (ha : st.commentAlloc = comAllocN st.comments.length) :
+    stoStep cfg st (35 :: c) = .inl { st with comments := st.comments ++ [c], commentAlloc := comAllocN (st.comments.length + 1) } := by
+  have hpc := parseComment_ok st c hc ha
+  obtain ⟨h1, h2, _, _, g1, g2, g3, g4⟩ := hc
+  have hs10 : memstrcmp (35 :: c) bSto10 = false := by
+    cases c with
+    | nil => simp [memstrcmp, bSto10]
+    | cons x t =>
+      have hx : x ≠ 32 := by
+        intro e; have := h1 x rfl; rw [e] at this; revert this; decide
+      simp only [memstrcmp, bSto10, beq_eq_false_iff_ne, ne_eq, List.cons.injEq, not_and]
+      intro _ h; exact absurd h hx
+  have hsl : memstrpfx (35 :: c) bSlash = false := by simp [memstrpfx, bSlash, List.isPrefixOf]
+  unfold stoStep
+  simp only [hl, Bool.false_eq_true, if_false, List.dropWhile]
+  simp only [show ((35 : UInt8) == 32 || (35 : UInt8) == 9) = false by decide, List.isEmpty_cons, Bool.false_or,
+    List.head?_cons, g1, g2, g3, g4, hs10, hsl, Bool.false_eq_true, if_false, if_true, hpc]
+  simp [liftE, hl]
+
+theorem com_steps (cfg : Cfg) (rest : List Bytes) : ∀ (cs : List Bytes) (st : StoSt), st.lead = false → (∀ c ∈ cs, comOk c) →
+    st.commentAlloc = comAllocN st.comments.length →
+    stepsFrom (stoStep cfg) st (cs.map (fun c => 35 :: c) ++ rest) =
+    stepsFrom (stoStep cfg) { st with comments := st.comments ++ cs, commentAlloc := comAllocN (st.comments ++ cs).length } rest
+  | [], st, _, _, ha => by simp [← ha]
+  | c :: cs, st, hl, hc, ha => by
+    have h1 : stepsFrom (stoStep cfg) st ((c :: cs).map (fun c => 35 :: c) ++ rest)
+        = stepsFrom (stoStep cfg) { st with comments := st.comments ++ [c], commentAlloc := comAllocN (st.comments.length + 1) }
+            (cs.map (fun c => 35 :: c) ++ rest) := by
+      simp only [List.map_cons, List.cons_append, stepsFrom, stoStep_comment cfg st c hl (hc c (by simp)) ha]
+    rw [h1]
+    refine (com_steps cfg rest cs { st with comments := st.comments ++ [c], commentAlloc := comAllocN (st.comments.length + 1) }
+      hl (fun c' h => hc c' (by simp [h])) (by simp [List.length_append])).trans ?_
+    simp
+
+theorem gfAllocN_succ (n : Nat) :
+    gfAllocN (n + 1) = if n == gfAllocN n then (if gfAllocN n == 0 then 16 else gfAllocN n * 2) else gfAllocN n := rfl
+
+theorem parseGf_other (st : StoSt) (tag sp val : Bytes) (ht : gfTagOk tag) (hs : SpOk sp) (hv : gfTextOk val)
+    (ha : st.gfAlloc = gfAllocN st.gf.length) :
+    parseGf st (bGF ++ [32] ++ (tag ++ sp ++ val))
+      = .ok { st with gf := st.gf ++ [(tag, val)], gfAlloc := gfAllocN (st.gf.length + 1) } := by
+  obtain ⟨hm1, hm2⟩ := gf_memtok tag sp val ht.1 hs hv.1
+  obtain ⟨htn, _, t1, t2, t3, t4, t5, t6, t7⟩ := ht
+  have hcv := cstr_id val (fun c hc e => hv.2.1 (e ▸ hc))
+  have hct := cstr_id tag (nameOk_nonul tag htn)
+  have hnf : ¬ (st.gf.length ≥ gfAllocN (st.gf.length + 1)) := by
+    have := gfAllocN_ge (st.gf.length + 1)
+    omega
+  unfold parseGf
+  simp only [hm1, hm2]
+  simp only [memstrcmp, beq_self_eq_true, Bool.not_true, Bool.false_eq_true, if_false, beq_eq_false_iff_ne.mpr t1,
+    beq_eq_false_iff_ne.mpr t2, beq_eq_false_iff_ne.mpr t3, beq_eq_false_iff_ne.mpr t4, beq_eq_false_iff_ne.mpr t5,
+    beq_eq_false_iff_ne.mpr t6, beq_eq_false_iff_ne.mpr t7]
+  unfold addGF
+  simp only [ha, ← gfAllocN_succ, hnf, if_false, hcv, hct]
+
+theorem stoStep_gfline' (cfg : Cfg) (st : StoSt) (L : StoLayout) (tag val : Bytes) (hl : st.lead = false) :
+    ∃ sp, SpOk sp ∧ stoStep cfg st (gfLine L tag val) = liftE (parseGf st (bGF ++ [32] ++ (tag ++ sp ++ val))) := by
+  obtain ⟨sp, hline, hs⟩ := gfline_shape L tag val
+  exact ⟨sp, hs, by rw [hline, stoStep_gfline cfg st _ hl]⟩
+
+theorem gf_steps (cfg : Cfg) (L : StoLayout) (rest : List Bytes) : ∀ (gs : List (Bytes × Bytes)) (st : StoSt), st.lead = false →
+    (∀ t ∈ gs, gfTagOk t.1 ∧ gfTextOk t.2) → st.gfAlloc = gfAllocN st.gf.length →
+    stepsFrom (stoStep cfg) st (gs.map (fun t => gfLine L t.1 t.2) ++ rest) =
+    stepsFrom (stoStep cfg) { st with gf := st.gf ++ gs, gfAlloc := gfAllocN (st.gf ++ gs).length } rest
+  | [], st, _, _, ha => by simp [← ha]
+  | t :: gs, st, hl, hc, ha => by
+    obtain ⟨sp, hs, he⟩ := stoStep_gfline' cfg st L t.1 t.2 hl
+    have ht := hc t (by simp)
+    have h1 : stepsFrom (stoStep cfg) st ((t :: gs).map (fun t => gfLine L t.1 t.2) ++ rest)
+        = stepsFrom (stoStep cfg) { st with gf := st.gf ++ [(t.1, t.2)], gfAlloc := gfAllocN (st.gf.length + 1) }
+            (gs.map (fun t => gfLine L t.1 t.2) ++ rest) := by
+      simp only [List.map_cons, List.cons_append, stepsFrom, he, parseGf_other st t.1 sp t.2 ht.1 hs ht.2 ha, liftE]
+    rw [h1]
+    refine (gf_steps cfg L rest gs { st with gf := st.gf ++ [(t.1, t.2)], gfAlloc := gfAllocN (st.gf.length + 1) }
+      hl (fun c' h => hc c' (by simp [h])) (by simp [List.length_append])).trans ?_
+    simp
+
+/-! ## cut-offs: `printf("%.1f")` of a finite value is a token `esl_mem_IsReal` accepts -/
+
+def allDig (l : Bytes) : Prop := ∀ c ∈ l, isDigit c = true
+
+def digitTbl : Bool :=
+  (List.range 256).all fun n =>
+    let c := UInt8.ofNat n
+    !isDigit c || (!inDelim blankTab c && c != 10 && c != 13 && !isSpace c && c != 45 && c != 43 && c != 117 && c != 46
+      && c != 101 && c != 69 && c != 0)
+
+theorem digitTbl_true : digitTbl = true := by decide +kernel
+
+theorem digit_facts (c : UInt8) (h : isDigit c = true) :
+    inDelim blankTab c = false ∧ c ≠ 10 ∧ c ≠ 13 ∧ isSpace c = false ∧ c ≠ 45 ∧ c ≠ 43 ∧ c ≠ 117 ∧ c ≠ 46 ∧ c ≠ 101 ∧ c ≠ 69 ∧ c ≠ 0 := by
+  have h1 := (List.all_eq_true.mp digitTbl_true) c.toNat (List.mem_range.mpr c.toNat_lt)
+  simp only [UInt8.ofNat_toNat, h, Bool.not_true, Bool.false_or, Bool.and_eq_true, Bool.not_eq_true', bne_iff_ne, ne_eq] at h1
+  obtain ⟨⟨⟨⟨⟨⟨⟨⟨⟨⟨a1, a2⟩, a3⟩, a4⟩, a5⟩, a6⟩, a7⟩, a8⟩, a9⟩, a10⟩, a11⟩ := h1
+  exact ⟨a1, a2, a3, a4, a5, a6, a7, a8, a9, a10, a11⟩
+
+theorem dch_digit : ∀ d, d < 10 → isDigit (dch d) = true := by decide
+
+theorem natDec_allDig (n : Nat) : allDig (natDec n) := fun c hc => by
+  obtain ⟨d, hd, rfl⟩ := natDec_mem n c hc
+  exact dch_digit d hd
+
+theorem isRealBody_digits (ds rest : Bytes) (h : allDig ds) (gd ge : Bool) (r : Nat) :
+    isRealBody (ds ++ rest) gd ge r = isRealBody rest gd ge (r + ds.length) := by
+  induction ds generalizing r with
+  | nil => simp
+  | cons c t ih =>
+    have hc := h c (by simp)
+    simp only [List.cons_append, isRealBody, hc, if_true]
+    rw [ih (fun x hx => h x (by simp [hx]))]
+    congr 1
+    simp only [List.length_cons]; omega
+
+theorem fmtFixed_shape (neg : Bool) (mant : Nat) (e : Int) (prec : Nat) (hp : prec ≠ 0) :
+    ∃ ip fp, fmtFixed neg mant e prec = (if neg then [45] else []) ++ (ip ++ 46 :: fp) ∧ ip ≠ [] ∧ allDig ip ∧ allDig fp := by
+  have hp' : (prec == 0) = false := by simpa using hp
+  unfold fmtFixed
+  simp only [hp', Bool.false_eq_true, if_false, List.append_assoc]
+  refine ⟨_, _, rfl, natDec_ne_nil _, natDec_allDig _, ?_⟩
+  intro c hc
+  rcases List.mem_append.mp hc with h | h
+  · rw [(List.mem_replicate.mp h).2]; decide
+  · exact natDec_allDig _ c h
+
+theorem fmtF1_shape (b : UInt32) (h : finiteF32 b) :
+    ∃ sg ip fp, fmtF1 b = sg ++ (ip ++ 46 :: fp) ∧ (sg = [] ∨ sg = [45]) ∧ ip ≠ [] ∧ allDig ip ∧ allDig fp := by
+  have h' : ((b.toNat / 2 ^ 23) % 256 == 255) = false := by simpa [finiteF32] using h
+  unfold fmtF1
+  simp only [h', Bool.false_eq_true, if_false]
+  split
+  · obtain ⟨ip, fp, he, h1, h2, h3⟩ := fmtFixed_shape (b.toNat / 2 ^ 31 == 1) (b.toNat % 2 ^ 23) (-149) 1 (by decide)
+    exact ⟨_, ip, fp, he, by split <;> simp, h1, h2, h3⟩
+  · obtain ⟨ip, fp, he, h1, h2, h3⟩ := fmtFixed_shape (b.toNat / 2 ^ 31 == 1) (b.toNat % 2 ^ 23 + 2 ^ 23)
+      (Int.ofNat ((b.toNat / 2 ^ 23) % 256) - 150) 1 (by decide)
+    exact ⟨_, ip, fp, he, by split <;> simp, h1, h2, h3⟩
+
+/-- a token the cut-off parser accepts as a real number and that survives being written on a line -/
+structure RealTok (t : Bytes) : Prop where
+  name : nameOk t
+  real : memIsReal t = true
+  nolf : (10 : UInt8) ∉ t
+  nocr : t.getLast? ≠ some 13
+  notundef : memstrcmp t bUndefined = false
+
+theorem realTok_of_shape (sg ip fp : Bytes) (hsg : sg = [] ∨ sg = [45]) (hip : ip ≠ []) (h1 : allDig ip) (h2 : allDig fp) :
+    RealTok (sg ++ (ip ++ 46 :: fp)) := by
+  have hbody : ∀ c ∈ ip ++ 46 :: fp, inDelim blankTab c = false ∧ c ≠ 10 ∧ c ≠ 13 := by
+    intro c hc
+    rcases List.mem_append.mp hc with h | h
+    · have := digit_facts c (h1 c h); exact ⟨this.1, this.2.1, this.2.2.1⟩
+    · rcases List.mem_cons.mp h with h | h
+      · subst h; decide
+      · have := digit_facts c (h2 c h); exact ⟨this.1, this.2.1, this.2.2.1⟩
+  have hall : ∀ c ∈ sg ++ (ip ++ 46 :: fp), inDelim blankTab c = false ∧ c ≠ 10 ∧ c ≠ 13 := by
+    intro c hc
+    rcases List.mem_append.mp hc with h | h
+    · rcases hsg with e | e
+      · rw [e] at h; cases h
+      · rw [e] at h; simp at h; subst h; decide
+    · exact hbody c h
+  obtain ⟨d, ip', rfl⟩ : ∃ d ip', ip = d :: ip' := by
+    cases ip with
+    | nil => exact absurd rfl hip
+    | cons d t => exact ⟨d, t, rfl⟩
+  have hd := digit_facts d (h1 d (by simp))
+  have hreal : isRealBody (d :: ip' ++ 46 :: fp) false false 0 = some ([], (d :: ip').length + fp.length) := by
+    rw [isRealBody_digits _ _ h1]
+    have h46 : isDigit 46 = false := by decide
+    simp only [isRealBody, h46, Bool.false_eq_true, if_false, beq_self_eq_true, if_true]
+    have := isRealBody_digits fp [] h2 true false (0 + (d :: ip').length)
+    rw [List.append_nil] at this
+    rw [this]
+    simp [isRealBody]
+  refine ⟨⟨?_, fun c hc => (hall c hc).1⟩, ?_, fun h => (hall 10 h).2.1 rfl, fun h => (hall 13 (List.mem_of_getLast? h)).2.2 rfl, ?_⟩
+  · rcases hsg with e | e <;> subst e <;> simp
+  · rcases hsg with e | e <;> subst e
+    · unfold memIsReal
+      simp only [List.nil_append, List.cons_append, List.isEmpty_cons, Bool.false_eq_true, if_false, List.dropWhile, hd.2.2.2.1]
+      have e1 : (d == 45 || d == 43) = false := by simp [hd.2.2.2.2.1, hd.2.2.2.2.2.1]
+      simp only [e1, Bool.false_eq_true, if_false]
+      rw [show d :: (ip' ++ 46 :: fp) = d :: ip' ++ 46 :: fp from rfl, hreal]
+      simp; omega
+    · unfold memIsReal
+      simp only [List.cons_append, List.nil_append, List.isEmpty_cons, Bool.false_eq_true, if_false, List.dropWhile,
+        show isSpace 45 = false by decide, show ((45 : UInt8) == 45 || (45 : UInt8) == 43) = true by decide, if_true]
+      rw [show d :: (ip' ++ 46 :: fp) = d :: ip' ++ 46 :: fp from rfl, hreal]
+      simp; omega
+  · rcases hsg with e | e <;> subst e
+    · simp only [memstrcmp, bUndefined, List.nil_append, List.cons_append, beq_eq_false_iff_ne, ne_eq, List.cons.injEq, not_and]
+      intro h; exact absurd h hd.2.2.2.2.2.2.1
+    · simp [memstrcmp, bUndefined]
+
+theorem fmtF1_realTok (b : UInt32) (h : finiteF32 b) : RealTok (fmtF1 b) := by
+  obtain ⟨sg, ip, fp, he, h0, h1, h2, h3⟩ := fmtF1_shape b h
+  rw [he]; exact realTok_of_shape sg ip fp h0 h1 h2 h3
+
+theorem parseCutoffs_one (st : StoSt) (a : Bytes) (i1 i2 : Nat) (u : Bool) (ha : RealTok a) :
+    parseCutoffs st a i1 i2 u = .ok { st with cutset := st.cutset.set i1 true } := by
+  unfold parseCutoffs
+  simp only [memtok_name a ha.name, ha.real, ha.notundef, Bool.and_false, Bool.not_false, Bool.not_true, Bool.and_self,
+    Bool.false_eq_true, if_false]
+  simp [memtok, List.dropWhile]
+
+theorem parseCutoffs_two (st : StoSt) (a b : Bytes) (i1 i2 : Nat) (u : Bool) (ha : RealTok a) (hb : RealTok b) :
+    parseCutoffs st (a ++ [32] ++ b) i1 i2 u = .ok { st with cutset := (st.cutset.set i1 true).set i2 true } := by
+  have hm := memtok_tok a [32] b ha.name ⟨by simp, by simp⟩ (nameOk_head b hb.name)
+  unfold parseCutoffs
+  simp only [hm, memtok_name b hb.name, ha.real, hb.real, ha.notundef, Bool.and_false, Bool.not_false, Bool.not_true, Bool.and_self,
+    Bool.false_eq_true, if_false]
+
+/-- the three two-threshold tags with the `cutset` slots they fill and the Rfam "undefined" allowance -/
+def CutTag (tag : Bytes) (i1 i2 : Nat) (u : Bool) : Prop :=
+  (tag = bGA ∧ i1 = 2 ∧ i2 = 3 ∧ u = false) ∨ (tag = bNC ∧ i1 = 4 ∧ i2 = 5 ∧ u = true) ∨ (tag = bTC ∧ i1 = 0 ∧ i2 = 1 ∧ u = false)
+
+theorem parseGf_cut (st : StoSt) (tag sp val : Bytes) (i1 i2 : Nat) (u : Bool) (htag : CutTag tag i1 i2 u) (hs : SpOk sp)
+    (hv : ∀ c, val.head? = some c → inDelim blankTab c = false) :
+    parseGf st (bGF ++ [32] ++ (tag ++ sp ++ val)) = parseCutoffs st val i1 i2 u := by
+  rcases htag with ⟨rfl, rfl, rfl, rfl⟩ | ⟨rfl, rfl, rfl, rfl⟩ | ⟨rfl, rfl, rfl, rfl⟩
+  · obtain ⟨hm1, hm2⟩ := gf_memtok bGA sp val (by unfold nameOk; decide +kernel) hs hv
+    unfold parseGf
+    simp only [hm1, hm2]
+    simp [memstrcmp, bGF, bID, bAC, bDE, bAU, bGA]
+  · obtain ⟨hm1, hm2⟩ := gf_memtok bNC sp val (by unfold nameOk; decide +kernel) hs hv
+    unfold parseGf
+    simp only [hm1, hm2]
+    simp [memstrcmp, bGF, bID, bAC, bDE, bAU, bGA, bNC]
+  · obtain ⟨hm1, hm2⟩ := gf_memtok bTC sp val (by unfold nameOk; decide +kernel) hs hv
+    unfold parseGf
+    simp only [hm1, hm2]
+    simp [memstrcmp, bGF, bID, bAC, bDE, bAU, bGA, bNC, bTC]
+
+theorem cutLines_eq (L : StoLayout) (tag : Bytes) (c1 c2 : Option UInt32) :
+    cutLines L tag c1 c2 = match c1, c2 with
+      | some a, some b => [gfLine L tag (fmtF1 a ++ [32] ++ fmtF1 b)]
+      | some a, none => [gfLine L tag (fmtF1 a)]
+      | none, _ => [] := by
+  unfold cutLines gfLine
+  cases c1 <;> cases c2 <;> simp
+
+theorem cut_steps (cfg : Cfg) (L : StoLayout) (rest : List Bytes) (st : StoSt) (hl : st.lead = false)
+    (tag : Bytes) (i1 i2 : Nat) (u : Bool) (htag : CutTag tag i1 i2 u) (c1 c2 : Option UInt32)
+    (h1 : ∀ v, c1 = some v → finiteF32 v) (h2 : ∀ v, c2 = some v → finiteF32 v) :
+    stepsFrom (stoStep cfg) st (cutLines L tag c1 c2 ++ rest)
+      = stepsFrom (stoStep cfg) { st with cutset := cutPair st.cutset i1 i2 c1 c2 } rest := by
+  rw [cutLines_eq]
+  cases c1 with
+  | none => rfl
+  | some a =>
+    have ra := fmtF1_realTok a (h1 a rfl)
+    cases c2 with
+    | none =>
+      obtain ⟨sp, hs, he⟩ := stoStep_gfline' cfg st L tag (fmtF1 a) hl
+      simp only [List.cons_append, List.nil_append, stepsFrom, he,
+        parseGf_cut st tag sp _ i1 i2 u htag hs (nameOk_head _ ra.name), parseCutoffs_one st _ i1 i2 u ra, liftE, cutPair]
+    | some b =>
+      have rb := fmtF1_realTok b (h2 b rfl)
+      obtain ⟨sp, hs, he⟩ := stoStep_gfline' cfg st L tag (fmtF1 a ++ [32] ++ fmtF1 b) hl
+      have hh : ∀ c, (fmtF1 a ++ [32] ++ fmtF1 b).head? = some c → inDelim blankTab c = false := by
+        intro c hc
+        apply nameOk_head _ ra.name c
+        have hne := ra.name.1
+        cases hfa : fmtF1 a with
+        | nil => exact absurd hfa hne
+        | cons x t => rw [hfa] at hc; simpa using hc
+      simp only [List.cons_append, List.nil_append, stepsFrom, he,
+        parseGf_cut st tag sp _ i1 i2 u htag hs hh, parseCutoffs_two st _ _ i1 i2 u ra rb, liftE, cutPair]
+
+/-- one optional `#=GF ID/AC/DE/AU` line -/
+theorem gfopt_step (cfg : Cfg) (L : StoLayout) (st st' : StoSt) (hl : st.lead = false) (tag : Bytes) (o : Option Bytes)
+    (rest : List Bytes) (hnone : o = none → st' = st)
+    (hsome : ∀ v sp, o = some v → SpOk sp → parseGf st (bGF ++ [32] ++ (tag ++ sp ++ v)) = .ok st') :
+    stepsFrom (stoStep cfg) st (optLine o (gfLine L tag) ++ rest) = stepsFrom (stoStep cfg) st' rest := by
+  cases o with
+  | none => rw [hnone rfl]; rfl
+  | some v =>
+    obtain ⟨sp, hs, he⟩ := stoStep_gfline' cfg st L tag v hl
+    simp only [optLine, List.cons_append, List.nil_append, stepsFrom, he, hsome v sp rfl hs, liftE]
+
+/-- the header section leaves the reader with the comments, the four parsed `#=GF` fields, the cut-off flags and the
+    unparsed `#=GF` tags set -/
 theorem head_steps (cfg : Cfg) (m : Msa) (hp : StoAnn m) :
     stepsFrom (stoStep cfg) {} (stoAnnHead m) = .inl (headSt m) := by
   have h0 : stoStep cfg {} bSto10 = .inl { lead := false } := rfl
-  have a1 : ∀ rest, stepsFrom (stoStep cfg) { lead := false } (optLine m.name (gfLine (stoLayout m) bID) ++ rest)
-      = stepsFrom (stoStep cfg) { lead := false, name := m.name } rest := by
+  let s1 : StoSt := { lead := false, comments := m.comments, commentAlloc := comAllocN m.comments.length }
+  let s2 : StoSt := { s1 with name := m.name }
+  let s3 : StoSt := { s2 with acc := m.acc }
+  let s4 : StoSt := { s3 with desc := m.desc }
+  let s5 : StoSt := { s4 with au := m.au }
+  let s6 : StoSt := { s5 with cutset := cutPair s5.cutset 2 3 (m.cutoff.getD 2 none) (m.cutoff.getD 3 none) }
+  let s7 : StoSt := { s6 with cutset := cutPair s6.cutset 4 5 (m.cutoff.getD 4 none) (m.cutoff.getD 5 none) }
+  let s8 : StoSt := { s7 with cutset := cutPair s7.cutset 0 1 (m.cutoff.getD 0 none) (m.cutoff.getD 1 none) }
+  have c1 : ∀ rest, stepsFrom (stoStep cfg) { lead := false } (m.comments.map (fun c => 35 :: c) ++ rest)
+      = stepsFrom (stoStep cfg) s1 rest := by
     intro rest
-    have hv := hp.name_ok
-    cases hn : m.name with
-    | none => rfl
-    | some v =>
-      obtain ⟨sp, hl, hs⟩ := gfline_shape (stoLayout m) bID v
-      simp only [optLine, List.cons_append, List.nil_append, stepsFrom]
-      rw [hl, stoStep_gfline cfg _ _ rfl, parseGf_id _ sp v hs (hv v hn)]
-      rfl
-  have a2 : ∀ rest, stepsFrom (stoStep cfg) { lead := false, name := m.name } (optLine m.acc (gfLine (stoLayout m) bAC) ++ rest)
-      = stepsFrom (stoStep cfg) { lead := false, name := m.name, acc := m.acc } rest := by
+    have := com_steps cfg rest m.comments { lead := false } rfl hp.com_ok rfl
+    rw [this]
+    simp [s1]
+  have c2 : ∀ rest, stepsFrom (stoStep cfg) s1 ((if m.comments.isEmpty then [] else [[]]) ++ rest)
+      = stepsFrom (stoStep cfg) s1 rest := by
     intro rest
-    have hv := hp.acc_ok
-    cases hn : m.acc with
-    | none => rfl
-    | some v =>
-      obtain ⟨sp, hl, hs⟩ := gfline_shape (stoLayout m) bAC v
-      simp only [optLine, List.cons_append, List.nil_append, stepsFrom]
-      rw [hl, stoStep_gfline cfg _ _ rfl, parseGf_ac _ sp v hs (hv v hn)]
-      rfl
-  have a3 : ∀ rest, stepsFrom (stoStep cfg) { lead := false, name := m.name, acc := m.acc }
-        (optLine m.desc (gfLine (stoLayout m) bDE) ++ rest)
-      = stepsFrom (stoStep cfg) { lead := false, name := m.name, acc := m.acc, desc := m.desc } rest := by
-    intro rest
-    have hv := hp.desc_ok
-    cases hn : m.desc with
-    | none => rfl
-    | some v =>
-      obtain ⟨sp, hl, hs⟩ := gfline_shape (stoLayout m) bDE v
-      simp only [optLine, List.cons_append, List.nil_append, stepsFrom]
-      rw [hl, stoStep_gfline cfg _ _ rfl, parseGf_de _ sp v hs (hv v hn)]
-      rfl
-  have a4 : ∀ rest, stepsFrom (stoStep cfg) { lead := false, name := m.name, acc := m.acc, desc := m.desc }
-        (optLine m.au (gfLine (stoLayout m) bAU) ++ rest)
+    split
+    · rfl
+    · simp only [List.cons_append, List.nil_append, stepsFrom, stoStep_blank cfg s1 s1 rfl rfl]
+  have a1 : ∀ rest, stepsFrom (stoStep cfg) s1 (optLine m.name (gfLine (stoLayout m) bID) ++ rest) = stepsFrom (stoStep cfg) s2 rest :=
+    fun rest => gfopt_step cfg _ s1 s2 rfl bID m.name rest (fun e => by simp [s2, e, s1])
+      (fun v sp e hs => by rw [parseGf_id s1 sp v hs (hp.name_ok v e)]; simp [s2, e])
+  have a2 : ∀ rest, stepsFrom (stoStep cfg) s2 (optLine m.acc (gfLine (stoLayout m) bAC) ++ rest) = stepsFrom (stoStep cfg) s3 rest :=
+    fun rest => gfopt_step cfg _ s2 s3 rfl bAC m.acc rest (fun e => by simp [s3, e, s2, s1])
+      (fun v sp e hs => by rw [parseGf_ac s2 sp v hs (hp.acc_ok v e)]; simp [s3, e])
+  have a3 : ∀ rest, stepsFrom (stoStep cfg) s3 (optLine m.desc (gfLine (stoLayout m) bDE) ++ rest) = stepsFrom (stoStep cfg) s4 rest :=
+    fun rest => gfopt_step cfg _ s3 s4 rfl bDE m.desc rest (fun e => by simp [s4, e, s3, s2, s1])
+      (fun v sp e hs => by rw [parseGf_de s3 sp v hs (hp.desc_ok v e)]; simp [s4, e])
+  have a4 : ∀ rest, stepsFrom (stoStep cfg) s4 (optLine m.au (gfLine (stoLayout m) bAU) ++ rest) = stepsFrom (stoStep cfg) s5 rest :=
+    fun rest => gfopt_step cfg _ s4 s5 rfl bAU m.au rest (fun e => by simp [s5, e, s4, s3, s2, s1])
+      (fun v sp e hs => by rw [parseGf_au s4 sp v hs (hp.au_ok v e)]; simp [s5, e])
+  have k1 : ∀ rest, stepsFrom (stoStep cfg) s5 (cutLines (stoLayout m) bGA (m.cutoff.getD 2 none) (m.cutoff.getD 3 none) ++ rest)
+      = stepsFrom (stoStep cfg) s6 rest :=
+    fun rest => cut_steps cfg _ rest s5 rfl bGA 2 3 false (Or.inl ⟨rfl, rfl, rfl, rfl⟩) _ _ (hp.cut_ok 2) (hp.cut_ok 3)
+  have k2 : ∀ rest, stepsFrom (stoStep cfg) s6 (cutLines (stoLayout m) bNC (m.cutoff.getD 4 none) (m.cutoff.getD 5 none) ++ rest)
+      = stepsFrom (stoStep cfg) s7 rest :=
+    fun rest => cut_steps cfg _ rest s6 rfl bNC 4 5 true (Or.inr (Or.inl ⟨rfl, rfl, rfl, rfl⟩)) _ _ (hp.cut_ok 4) (hp.cut_ok 5)
+  have k3 : ∀ rest, stepsFrom (stoStep cfg) s7 (cutLines (stoLayout m) bTC (m.cutoff.getD 0 none) (m.cutoff.getD 1 none) ++ rest)
+      = stepsFrom (stoStep cfg) s8 rest :=
+    fun rest => cut_steps cfg _ rest s7 rfl bTC 0 1 false (Or.inr (Or.inr ⟨rfl, rfl, rfl, rfl⟩)) _ _ (hp.cut_ok 0) (hp.cut_ok 1)
+  have g1 : ∀ rest, stepsFrom (stoStep cfg) s8 (m.gf.map (fun t => gfLine (stoLayout m) t.1 t.2) ++ rest)
       = stepsFrom (stoStep cfg) (headSt m) rest := by
     intro rest
-    have hv := hp.au_ok
-    unfold headSt
-    cases hn : m.au with
-    | none => rfl
-    | some v =>
-      obtain ⟨sp, hl, hs⟩ := gfline_shape (stoLayout m) bAU v
-      simp only [optLine, List.cons_append, List.nil_append, stepsFrom]
-      rw [hl, stoStep_gfline cfg _ _ rfl, parseGf_au _ sp v hs (hv v hn)]
-      rfl
+    have := gf_steps cfg (stoLayout m) rest m.gf s8 rfl hp.gf_ok rfl
+    rw [this]
+    simp [s8, s7, s6, s5, s4, s3, s2, s1, headSt, cutsetOf]
   unfold stoAnnHead
   simp only [List.cons_append, List.nil_append, stepsFrom, h0]
-  rw [a1, a2, a3, a4]
+  rw [c1, c2, a1, a2, a3, a4, k1, k2, k3, g1]
   simp only [stepsFrom, stoStep_blank cfg (headSt m) (headSt m) rfl rfl]
 
 theorem blockStarts_cons' (alen cpl : Nat) (h : 1 ≤ alen) (hc : 0 < cpl) :
@@ -1354,9 +1769,10 @@ theorem blockStarts_cons' (alen cpl : Nat) (h : 1 ≤ alen) (hc : 0 < cpl) :
   rw [blockStartsFrom, dif_pos ⟨by omega, hc⟩, Nat.zero_add]
 
 theorem InBlk_init (cfg : Cfg) (enc : UInt8 → UInt8) (txt : Nat → Bytes) (m : Msa) (hp : StoAnn m) (w : Nat) :
-    InBlk cfg enc txt m 0 w 0 0 0 0 0 (headSt m) :=
+    InBlk cfg enc txt m GsSt.none 0 w 0 0 0 0 0 (headSt m) :=
   { fr :=
-      { lead := rfl, hasw := rfl, name := rfl, desc := rfl, acc := rfl, au := rfl, cons_len := rfl, consLen_len := rfl
+      { lead := rfl, hasw := rfl, wgt := fun e => absurd e (by decide), name := rfl, desc := rfl, acc := rfl, au := rfl
+        cons_len := rfl, consLen_len := rfl
         cons := fun k hk => by
           have e : consVal m (if k < 0 then 0 + w else 0) k = none := by
             rw [if_neg (Nat.not_lt_zero k)]; unfold consVal; split <;> simp
@@ -1368,8 +1784,8 @@ theorem InBlk_init (cfg : Cfg) (enc : UInt8 → UInt8) (txt : Nat → Bytes) (m 
           show (List.replicate 5 0)[k]? = _
           rw [List.getElem?_replicate, if_pos hk]
         sqacc := rfl, sqdesc := rfl, per := rfl, cutset := rfl
-        comments := by rw [hp.comments]; rfl
-        gf := by rw [hp.gf]; rfl
+        comments := rfl
+        gf := rfl
         gsTags := rfl, gs := rfl, gcTags := rfl, gc := rfl, grTags := rfl, gr := rfl }
     alen := rfl, nblock := ⟨fun _ => rfl, fun _ => rfl⟩, names := by simp [headSt], nseq := rfl
     alloc := by show 0 ≤ 16; omega
@@ -1396,18 +1812,20 @@ theorem InBlk_init (cfg : Cfg) (enc : UInt8 → UInt8) (txt : Nat → Bytes) (m 
     blt := fun i hi => by omega
     bidx := fun i hi => by omega
     npb := fun e => absurd rfl e
-    bi := rfl, si := rfl, nseqB := rfl
+    bi := rfl, si := Or.inl rfl, nseqB := rfl
     alenB := fun e => absurd rfl e
     inBlock := rfl }
 
 /-! ## the end of the record -/
 
-/-- everything Stockholm/Pfam represent of `m`: all of it; rows in the reader's mode, default weights -/
+/-- everything Stockholm/Pfam represent of `m`: all of it; rows in the reader's mode, default weights; of the cut-offs the
+    reader MODEL keeps which ones are set (a second threshold only with the first), not their value (`some 0`) -/
 def stoProject (cfg : Cfg) (m : Msa) : Msa :=
   { m with digital := cfg.digital, kp := cfg.kp,
            aseq := if cfg.digital then [] else (List.range m.nseq).map m.stored,
            ax := if cfg.digital then (List.range m.nseq).map m.stored else [],
-           wgt := List.replicate m.nseq Wgt.dflt }
+           wgt := List.replicate m.nseq Wgt.dflt,
+           cutoff := if (cutsetOf m).any id then (cutsetOf m).map (fun b => if b then some 0 else none) else [] }
 
 theorem rows_take_final (rows : List (Option Bytes)) (n : Nat) (f : Nat → Bytes)
     (h : ∀ i, i < n → rows[i]? = some (some (f i))) : (rows.take n).map (·.getD []) = (List.range n).map f := by
@@ -1429,7 +1847,7 @@ theorem consVal_full (m : Msa) (hp : StoAnn m) (ha : 1 ≤ m.alen) (k : Nat) : c
 
 theorem stoFinal_full (abc : Option Abc) (cfg : Cfg) (enc : UInt8 → UInt8) (txt : Nat → Bytes) (m : Msa)
     (W : StoWritable abc cfg enc txt m) (w : Nat) (st : StoSt)
-    (h : InBlk cfg enc txt m m.alen w m.nseq (blockSpec m).length 0 0 0 st) :
+    (h : InBlk cfg enc txt m GsSt.none m.alen w m.nseq (blockSpec m).length 0 0 0 st) :
     stoFinal cfg st = .ok (stoProject cfg m) := by
   have hfr := h.fr
   have hp := W.ann
@@ -1477,7 +1895,7 @@ theorem stoFinal_full (abc : Option Abc) (cfg : Cfg) (enc : UInt8 → UInt8) (tx
   have e_sqacc : st.sqacc = none := hfr.sqacc
   have e_sqdesc : st.sqdesc = none := hfr.sqdesc
   have e_per : st.per = List.replicate 3 none := hfr.per
-  have e_cut : st.cutset = List.replicate 6 false := hfr.cutset
+  have e_cut : st.cutset = cutsetOf m := hfr.cutset
   have e_com : st.comments = m.comments := hfr.comments
   have e_gf : st.gf = m.gf := hfr.gf
   have e_gsT : st.gsTags = [] := hfr.gsTags
@@ -1492,11 +1910,11 @@ theorem stoFinal_full (abc : Option Abc) (cfg : Cfg) (enc : UInt8 → UInt8) (tx
   unfold stoMsa stoProject
   simp only [hnseq, hrows, hnames, h.alen, e_hasw, e_name, e_desc, e_acc, e_au, c0, c1, c2, c3, c4, e_sqacc, e_sqdesc, e_per,
     e_cut, e_com, e_gf, e_gsT, e_gs, e_gcT, e_gc, e_grT, e_gr]
-  obtain ⟨a1, a2, a3, a4, a5, a6, a7, a8, a9, a10, _, _, _, _, _, _, _⟩ := hp
+  obtain ⟨a1, a2, a3, a4, a5, a6, a8, a9, a10, _, _, _, _, _, _, _, _⟩ := hp
   rcases m with ⟨digital, kp, alen, names, aseq, ax, hasw, wgt, name, desc, acc, au, ssCons, saCons, ppCons, rf, mm, sqacc, sqdesc,
     ss, sa, pp, cutoff, comments, gf, gs, gc, gr⟩
-  simp only at a1 a2 a3 a4 a5 a6 a7 a8 a9 a10
-  subst a1 a2 a3 a4 a5 a6 a7 a8 a9 a10
+  simp only at a1 a2 a3 a4 a5 a6 a8 a9 a10
+  subst a1 a2 a3 a4 a5 a6 a8 a9 a10
   simp [Msa.nseq, consF]
 
 /-! ## the round trip -/
@@ -1591,6 +2009,30 @@ theorem stoLines_ok (pfam : Bool) (abc : Option Abc) (cfg : Cfg) (enc : UInt8 
         · revert h; decide
         · exact htag h
       · exact e2 h
+  have hcut : ∀ (tag : Bytes) (c1 c2 : Option UInt32), (10 : UInt8) ∉ tag → (∀ v, c1 = some v → finiteF32 v) →
+      (∀ v, c2 = some v → finiteF32 v) → ∀ l ∈ cutLines (stoLayout m) tag c1 c2, lineOk l := by
+    intro tag c1 c2 ht h1 h2 l hl
+    rw [cutLines_eq] at hl
+    cases c1 with
+    | none => cases hl
+    | some a =>
+      have ra := fmtF1_realTok a (h1 a rfl)
+      cases c2 with
+      | none => simp only [List.mem_singleton] at hl; subst hl; exact gfline_ok _ _ _ ht ra.nolf ra.nocr
+      | some b =>
+        have rb := fmtF1_realTok b (h2 b rfl)
+        simp only [List.mem_singleton] at hl; subst hl
+        refine gfline_ok _ _ _ ht ?_ ?_
+        · intro h
+          simp only [List.mem_append, List.mem_singleton] at h
+          rcases h with (h | h) | h
+          · exact ra.nolf h
+          · exact absurd h (by decide)
+          · exact rb.nolf h
+        · rw [List.getLast?_append]
+          cases hb : (fmtF1 b).getLast? with
+          | none => exact absurd (List.getLast?_eq_none_iff.mp hb) rb.name.1
+          | some x => have := rb.nocr; rw [hb] at this; simpa using this
   intro l hl
   unfold stockholmLines at hl
   rw [stoBody_ann pfam abc m W.ann W.nodup] at hl
@@ -1599,8 +2041,20 @@ theorem stoLines_ok (pfam : Bool) (abc : Option Abc) (cfg : Cfg) (enc : UInt8 
     · -- header
       unfold stoAnnHead at hl
       simp only [List.mem_append, List.mem_cons, List.not_mem_nil, or_false] at hl
-      rcases hl with hl | hl | hl | hl | hl | hl
+      rcases hl with hl | hl | hl | hl | hl | hl | hl | hl | hl | hl | hl | hl
       · subst hl; exact ⟨by decide, by decide⟩
+      · obtain ⟨c, hc, rfl⟩ := List.mem_map.mp hl
+        obtain ⟨_, _, h10, h13, _⟩ := hp.com_ok c hc
+        refine ⟨fun h => ?_, ?_⟩
+        · rcases List.mem_cons.mp h with h | h
+          · exact absurd h (by decide)
+          · exact h10 h
+        · cases c with
+          | nil => simp
+          | cons x t => rw [List.getLast?_cons_cons]; exact h13
+      · split at hl
+        · cases hl
+        · simp at hl; subst hl; exact hnil
       · cases hn : m.name with
         | none => rw [hn] at hl; simp [optLine] at hl
         | some v =>
@@ -1625,6 +2079,12 @@ theorem stoLines_ok (pfam : Bool) (abc : Option Abc) (cfg : Cfg) (enc : UInt8 
           rw [hn] at hl; simp only [optLine, List.mem_singleton] at hl; subst hl
           have := hp.au_ok v hn
           exact gfline_ok _ _ _ (by decide) this.2.2.1 this.2.2.2
+      · exact hcut bGA _ _ (by decide) (hp.cut_ok 2) (hp.cut_ok 3) l hl
+      · exact hcut bNC _ _ (by decide) (hp.cut_ok 4) (hp.cut_ok 5) l hl
+      · exact hcut bTC _ _ (by decide) (hp.cut_ok 0) (hp.cut_ok 1) l hl
+      · obtain ⟨t, ht, rfl⟩ := List.mem_map.mp hl
+        have := hp.gf_ok t ht
+        exact gfline_ok _ _ _ this.1.2.1 this.2.2.2.1 this.2.2.2.2
       · subst hl; exact hnil
     · obtain ⟨pos, hpos, hl⟩ := List.mem_flatMap.mp hl
       have hlt := blockStarts_lt _ _ pos hpos
